@@ -418,12 +418,16 @@ func cmdCheck(args []string) {
 		fmt.Printf("   incomplete x%d: %s\n", v, k)
 	}
 	rp.Cleanup()
+	if violations > 0 {
+		// a confirmed violation is the verdict even if, because of it, some entry never reached its label
+		if engineErr != "" {
+			fmt.Printf("NOTE property=%s %s\n", prop, engineErr)
+		}
+		os.Exit(1)
+	}
 	if engineErr != "" {
 		fmt.Printf("ENGINE-ERROR property=%s %s\n", prop, engineErr)
 		os.Exit(2)
-	}
-	if violations > 0 {
-		os.Exit(1)
 	}
 }
 
